@@ -19,6 +19,9 @@ Driver-side relational checks:
   mdoc_history      sections present in the written file = model of the generated images after the sort / remove history.
   loader_truth, defocus_truth, wedge_truth: results equal the numbers the generator put into the files (no file parser involved).
   wedge_em_consistent: EM list from tilt files == EM list converted from the STOPGAP list of the same tomograms.
+  index_array_unchanged: an index ndarray handed to mdoc.remove_images / Mdoc.remove_images is the caller's: it must hold the same
+                    numbers afterwards; the same array is reused for 2..3 mdocs and every written file is judged (mdoc_history)
+                    against the ORIGINAL index values.
 """
 import os
 import shutil
@@ -49,7 +52,7 @@ ASSUMPTIONS = ["mdoc grammar: unique keys, the same key set in every section (ra
                "re-reading a written mdoc with zero kept images is not judged (the grammar has 1..80 images)"]
 
 CLASSES = ["mdoc_plain", "mdoc_crlf", "mdoc_values", "mdoc_n1", "mdoc_large", "mdoc_sort", "mdoc_remove", "mdoc_history",
-           "mdoc_odd_index", "mdoc_module_funcs", "mdoc_frameset", "mdoc_expfloat",
+           "mdoc_odd_index", "mdoc_module_funcs", "mdoc_reuse_indices", "mdoc_frameset", "mdoc_expfloat",
            "tlt_files", "dose_files", "dose_mdoc", "gctf", "ctffind4",
            "wedge_single", "wedge_batch_files", "wedge_batch_tables", "wedge_batch_mdoc", "wedge_em", "wedge_int_zshift"]
 
@@ -57,16 +60,16 @@ CLASSES = ["mdoc_plain", "mdoc_crlf", "mdoc_values", "mdoc_n1", "mdoc_large", "m
 
 def plan(tier):
     if tier == "quick":
-        return dict(n_cases=23 * 17, shards=2, classes=CLASSES, timeout_s=600,
+        return dict(n_cases=24 * 17, shards=2, classes=CLASSES, timeout_s=600,
                     min_evals={"mdoc_write": 180, "mdoc_read": 400, "mdoc_roundtrip": 160, "mdoc_history": 130, "sort_by_tilt": 80,
                                "remove_images": 100, "kept_images": 70, "one_value_per_line_read": 400, "tlt_load": 400,
                                "total_dose_load": 200, "gctf_read": 70, "ctffind4_read": 70, "defocus_load": 50, "wedge_sg": 180, "wedge_sg_batch": 60,
-                               "wedge_em_batch": 35, "wedge_sg_to_em": 35, "loader_truth": 350, "defocus_truth": 90, "wedge_truth": 120})
-    return dict(n_cases=23 * 260, shards=12, classes=CLASSES, timeout_s=3000,
+                               "wedge_em_batch": 35, "wedge_sg_to_em": 35, "index_array_unchanged": 25, "loader_truth": 350, "defocus_truth": 90, "wedge_truth": 120})
+    return dict(n_cases=24 * 250, shards=12, classes=CLASSES, timeout_s=3000,
                 min_evals={"mdoc_write": 2700, "mdoc_read": 6000, "mdoc_roundtrip": 2400, "mdoc_history": 2000, "sort_by_tilt": 1200,
                            "remove_images": 1500, "kept_images": 1000, "one_value_per_line_read": 6000, "tlt_load": 6000,
                            "total_dose_load": 3000, "gctf_read": 1000, "ctffind4_read": 1000, "defocus_load": 750, "wedge_sg": 2700, "wedge_sg_batch": 900,
-                           "wedge_em_batch": 500, "wedge_sg_to_em": 500, "loader_truth": 5000, "defocus_truth": 1300, "wedge_truth": 1800})
+                           "wedge_em_batch": 500, "wedge_sg_to_em": 500, "index_array_unchanged": 400, "loader_truth": 5000, "defocus_truth": 1300, "wedge_truth": 1800})
 
 
 # ================================================================================================
@@ -652,7 +655,7 @@ def setup(ctx):
     f_sgb = monitors.wrap(ctx, wedgeutils, "create_wedge_list_sg_batch", "wedge_sg_batch", _sgb_post, _sgb_app, _pop_exp)
     f_em = monitors.wrap(ctx, wedgeutils, "create_wedge_list_em_batch", "wedge_em_batch", _em_post, _em_app, _pop_exp)
     f_s2e = monitors.wrap(ctx, wedgeutils, "wedge_list_sg_to_em", "wedge_sg_to_em", _s2e_post, _s2e_app, _pop_exp)
-    ctx.declare("mdoc_roundtrip", "mdoc_history", "loader_truth", "defocus_truth", "wedge_truth", "wedge_em_consistent", "get_tilt_angles")
+    ctx.declare("index_array_unchanged", "mdoc_roundtrip", "mdoc_history", "loader_truth", "defocus_truth", "wedge_truth", "wedge_em_consistent", "get_tilt_angles")
     monitors.trace(ctx, [
         ("Mdoc._read_mdoc", f_r, {"zvalue": 'section_id = "ZValue"', "frameset": 'section_id = "FrameSet"'}),
         ("Mdoc._parse_header", M._parse_header, {"title": "titles.append(title)", "key_value": "project_info[key.strip()]"}),
@@ -933,8 +936,59 @@ def gen_wedge_case(ctx, rng, i, cls):
     return case
 
 
+def gen_reuse_case(ctx, rng, i, cls):
+    """one index ndarray reused for 2..3 successive removals on different mdocs (one list of bad tilts for several files)"""
+    k = int(rng.integers(2, 4))
+    sts, models = [], []
+    for _ in range(k):
+        n = int(rng.integers(2, 16 if ctx.tier == "quick" else 41))
+        st = O.gen_mdoc(rng, n, cls=str(rng.choice(["plain", "crlf", "values"])))
+        sts.append(st)
+    nmin = min(len(st["sections"]) for st in sts)
+    sub = sorted(set(_gen_subset(rng, nmin, str(rng.choice(["one", "few", "half", "first_last"])))))
+    op = {"op": "remove", "indices": sub, "kept_only": True}
+    for st in sts:
+        model = [{"z": int(s["id"]), "tilt": float(dict(s["items"])["TiltAngle"]), "removed": False} for s in st["sections"]]
+        models.append(_model_apply(model, op))
+    via = "module" if rng.random() < 0.75 else "method"
+    from1 = bool(rng.random() < 0.75) and via == "module"
+    dtype = str(rng.choice(["int64", "int32"]))
+    summ = {"mdocs": [len(st["sections"]) for st in sts], "indices": sub, "via": via, "numbered_from_1": from1, "dtype": dtype,
+            "first": sts[0]["sections"][0]["items"][:3], "layout": sts[0]["layout"]}
+    return {"i": i, "cls": cls, "kind": "mdoc_reuse", "sts": sts, "models": models, "indices": sub, "via": via, "from1": from1, "dtype": dtype,
+            "op": op, "nt": True, "summary": summ}
+
+
+def run_reuse(ctx, case):
+    md = ctx.md
+    base = os.path.join(ctx.scratch, "c%d" % case["i"])
+    arr = np.array([x + (1 if case["from1"] else 0) for x in case["indices"]], dtype=case["dtype"])
+    orig = arr.copy()                      # every call is judged against these numbers
+    for j, (st, model) in enumerate(zip(case["sts"], case["models"])):
+        src = os.path.join(base, "in_%d.mdoc" % j)
+        out = os.path.join(base, "out_%d.mdoc" % j)
+        _write_text(src, O.render_mdoc(st))
+        if case["via"] == "module":
+            ok, m = ctx.call("mdoc.remove_images(reused index array)", md.remove_images, src, arr, numbered_from_1=case["from1"], output_file=out)
+        else:
+            ok, m = ctx.call("Mdoc(path)", md.Mdoc, src)
+            if ok:
+                ok, _ = ctx.call("remove_images(reused index array)", m.remove_images, arr)
+            if ok:
+                ok, _ = ctx.call("Mdoc.write", m.write, out)
+        same = arr.shape == orig.shape and arr.dtype == orig.dtype and bool(np.all(arr == orig))
+        ctx.check("index_array_unchanged", same, None if same else {"what": "the caller's index array was modified", "call": j + 1, "before": orig.tolist(), "after": arr.tolist(),
+                                                                     "numbered_from_1": case["from1"], "via": case["via"]})
+        if not ok:
+            continue
+        check_history(ctx, {"st": st, "model": model, "ops": [dict(case["op"], call=j + 1, original_indices=orig.tolist(), numbered_from_1=case["from1"])]}, out, False)
+        check_roundtrip(ctx, m, out, False)
+
+
 def gen(ctx, i, cls):
     rng = ctx.rng(i)
+    if cls == "mdoc_reuse_indices":
+        return gen_reuse_case(ctx, rng, i, cls)
     if cls.startswith("mdoc_"):
         return gen_mdoc_case(ctx, rng, i, cls)
     if cls.startswith("wedge_"):
@@ -1493,6 +1547,8 @@ def run_case(ctx, case):
     try:
         if kind == "mdoc":
             run_mdoc(ctx, case)
+        elif kind == "mdoc_reuse":
+            run_reuse(ctx, case)
         elif kind == "numbers":
             run_numbers(ctx, case)
         elif kind == "dose_mdoc":
